@@ -43,6 +43,10 @@ def gen_vector(rng):
             x = cap
         elif k < 0.3:
             x = cap - 1
+        elif k < 0.34:
+            # the capacities of OTHER counter widths are ordinary values for this one (2^32-1 in a 64-bit total, 2^16-1,
+            # 2^31, 2^63 ...): not saturated, rendered as numbers, filtered by the threshold like any value
+            x = rng.choice([2**32 - 1, 2**32 - 2, 2**32, 2**31 - 1, 2**31, 2**16 - 1, 2**16, 2**63 - 1, 2**63, 2**53, 2**53 + 1, 255, 256])
         elif k < 0.4:
             # exactly half-way between two renderings (k + 1/2 units of a prefix), odd and even k: the table value must be
             # the round-half-even rendering of the JSON value
